@@ -350,3 +350,10 @@ pub fn vx_set_interval(interval: &mut usize, new_name: &str) -> (r: Result<(), s
         |_| std::io::Error::new(std::io::ErrorKind::InvalidInput, "invalid interval"),
     )
 }
+
+/// R21: vstd has no model of the OWNING iterator of a HashSet; `set.into_iter().collect::<Vec<_>>()`
+/// is replaced by this helper with the assumed contract of std (A5): the members, each once.
+#[verifier::external_body]
+pub fn vx_set_into_vec(set: HashSet<Term>) -> (v: Vec<Term>)
+    ensures v@.to_set() == set@, v@.len() == set@.len(), v@.no_duplicates()
+{ set.into_iter().collect::<Vec<_>>() }
